@@ -44,6 +44,15 @@ FEES_COV = {"name": "MC_Fees_cov", "module": "MC_Whirlpool", "cfg": "MC_Fees_cov
 RERANGE_COV = {"name": "MC_Rerange_cov", "module": "MC_Rerange", "cfg": "MC_Rerange_cov.cfg", "timeout": 900, "workers": 1}
 
 
+def deep_walks(tier, seed):
+    """long random walks (depth 40) through a larger toy instance (7 ticks, 3 positions, every action incl. re-ranging and explicit price
+    limits) under all invariants at once: the exhaustive instances stop after 5-6 operations"""
+    # (about 4 s per walk and worker: every step enumerates ~2 500 successor states; `num` is per worker)
+    q = tier == "quick"
+    return {"name": "MC_Deep", "module": "MC_Deep", "cfg": "MC_Deep.cfg", "simulate": "num=5" if q else "num=60", "depth": 40, "seed": seed,
+            "workers": 2 if q else 6, "timeout": 600 if q else 5400}
+
+
 def rerange(tier, ledger=False):
     n = "MC_RerangeLedger" if ledger else "MC_Rerange"
     return {"name": n, "module": "MC_Rerange", "cfg": f"{n}_q.cfg" if tier == "quick" else f"{n}.cfg", "timeout": 7200}
@@ -64,7 +73,7 @@ def C01(tier, seed):
                   explanation="Solvent + NoFreeLunch evaluated after every instruction of recorded random histories of the real program "
                               "(incl. drain sequences whose every call must succeed); the same invariants model-checked on the toy instance, "
                               "also with the two re-ranging instructions added (MC_Rerange)")
-    p["models"] += [rerange(tier), FEES_COV, RERANGE_COV]
+    p["models"] += [rerange(tier), FEES_COV, RERANGE_COV, deep_walks(tier, seed)]
     return p
 
 
